@@ -238,8 +238,12 @@ def check_geometry(ctx, prog):
                     if e is not None and e.get('k') == 'call':
                         if (e.get('pq') or '').split('::')[-1] == 'hash':
                             return h
-                        if (e.get('pq') or '') == 'asl::Array::length' and e.get('obj') is not None and len_pred(strip(e['obj'])):
-                            return L
+                        if (e.get('pq') or '') == 'asl::Array::length' and e.get('obj') is not None:
+                            r_ = len_pred(strip(e['obj']))
+                            if r_ is True:
+                                return L
+                            if r_ is not None and r_ is not False:
+                                return r_(L) if callable(r_) else r_
                     return bytesets.Evaluator.ev(self, e)
 
                 def sub_evaluator(self, g, env, arrays):
@@ -369,8 +373,9 @@ def check_geometry(ctx, prog):
             if bfn is None:
                 okm, why = False, 'binOf() was not evaluable'
             for ix in idxs:
-                rfn = bucket_fn(f, ix, lambda o: o.get('k') == 'var' and o.get('id') == tv_['id'])
                 for L in sizes:
+                    # new table: its evaluated size; the old table (member a): the length it is grown from
+                    rfn = bucket_fn(f, ix, lambda o, L=L: True if (o.get('k') == 'var' and o.get('id') == tv_['id']) else (L if (o.get('k') == 'mem' and o.get('f') == 'a') else None))
                     for h in HGRID:
                         got, want = rfn(h, sizes[L]), bfn(h, sizes[L])
                         ctx.evaluations += 1
